@@ -769,6 +769,13 @@ func (e *Enc) loopEnv(fr *Frame, h *ssa.BasicBlock, st *State, edgeFrom *ssa.Bas
 		}
 		env.cells[name] = cellVar{a.key, a.ref, a.sort, a.typ}
 	}
+	for _, ins := range h.Instrs {
+		if nx, ok := ins.(*ssa.Next); ok && nx.IsString {
+			if rng, ok := nx.Iter.(*ssa.Range); ok {
+				env.iterKey = e.rangeCountKey(fr, rng)
+			}
+		}
+	}
 	rangeOf := func(hb *ssa.BasicBlock) bool {
 		for _, ins := range hb.Instrs {
 			if nx, ok := ins.(*ssa.Next); ok && !nx.IsString {
@@ -1152,6 +1159,8 @@ func (e *Enc) loopWrites(fr *Frame, li *loopInfo) (map[string]bool, bool) {
 					if rng, ok := x.Iter.(*ssa.Range); ok && !x.IsString {
 						k, _ := e.rangeSeenKey(&Frame{fn: fn, suffix: fr.suffix}, rng)
 						keys[k] = true
+					} else if ok && x.IsString {
+						keys[e.rangeCountKey(&Frame{fn: fn, suffix: fr.suffix}, rng)] = true
 					}
 				case *ssa.MapUpdate:
 					mt := x.Map.Type().Underlying().(*types.Map)
